@@ -47,6 +47,11 @@ def harnesses(ctx):
         Harness("c03_input_too_long", "input_text__buffer__mod", ["InputBuffer::start_build", "MAX_LENGTH", "REALLY_MAX_LENGTH"],
                 "original texts of 49,150..49,189 bytes", kernel="C03-c inputs beyond the limit yield an error value before any work; the limits are the documented ones",
                 timeout_s=900, mem_gb=12, outside=["accepted lengths (a String of symbolic length up to 49,149 through start_build is out of reach)"]),
+        Harness("c03_commit_limit", "input_text__buffer__mod", ["InputBuffer::with_editor", "InputBuffer::commit", "InputBuffer::make_editor", "InputEditor::replace_ref"],
+                "one committed edit batch; resolve_edits replaced by a stub of its contract: any reported size, partial output",
+                kernel="C03-c the limit on the rewritten text is enforced on every commit: error value beyond 65,535 bytes, buffer unchanged; accepted batch installed",
+                stubs=["input_text::buffer::edit::resolve_edits -> consumes the edits, writes a short text/map, returns ANY size (its real behaviour is decided in C08)"],
+                timeout_s=900, mem_gb=12),
         Harness("c03_created_shift", "analysis__created", ["CreatedWords::single", "CreatedWords::has_word", "CreatedWords::add_word"], "every i64 length >= 1",
                 kernel="C03-c no shift overflow in the created-length set", timeout_s=600, mem_gb=8),
     ]
